@@ -72,11 +72,13 @@ pub open spec fn fn_frame(fr: Seq<StackFrame>, i: int) -> int decreases i {
 }
 pub open spec fn labels(fr: Seq<StackFrame>) -> Seq<VString> { Seq::new(fr.len(), |i: int| fr[i].label) }
 // ---- the trace text (Display): a writer that records what is written
-pub enum Piece { Empty, Cause(VString), Caller(VString) }
+pub enum Piece { Empty, Cause(VString), Caller(VString), Other }
 #[verifier::external_body] pub struct Fmt { x: usize }
 pub uninterp spec fn written(f: &Fmt) -> Seq<Piece>;
 #[verifier::external_body] pub fn write_empty(f: &mut Fmt) -> (r: Result<(), VErr>) ensures r is Ok ==> written(final(f)) == written(old(f)).push(Piece::Empty) { unimplemented!() }
 #[verifier::external_body] pub fn write_cause(f: &mut Fmt, l: &VString) -> (r: Result<(), VErr>) ensures r is Ok ==> written(final(f)) == written(old(f)).push(Piece::Cause(*l)) { unimplemented!() }
+// any other text a change may add to the trace: it is not a frame
+#[verifier::external_body] pub fn write_other(f: &mut Fmt) -> (r: Result<(), VErr>) ensures r is Ok ==> written(final(f)) == written(old(f)).push(Piece::Other) { unimplemented!() }
 #[verifier::external_body] pub fn write_caller(f: &mut Fmt, l: &VString) -> (r: Result<(), VErr>) ensures r is Ok ==> written(final(f)) == written(old(f)).push(Piece::Caller(*l)) { unimplemented!() }
 """
 
@@ -158,6 +160,7 @@ def build(repo):
         Rule("R9", "return write ! ( f , \"<Empty Stack>\" ) ;", "return write_empty ( f ) ;", count=1, why="write! of a fixed text"),
         Rule("R9", "write ! ( f , \"\\t>> {}\" , first . label ) ? ;", "write_cause ( f , & first . label ) ? ;", count=1, why="write! of the `>>` line (innermost frame: where the failure happened)"),
         Rule("R9", "write ! ( f , \"\\r\\n\\t ^ {}\" , stack_frame . label ) ? ;", "write_caller ( f , & stack_frame . label ) ? ;", count=1, why="write! of one `^` caller line"),
+        Rule("R9", "write ! ( f , $$a ) ? ;", "write_other ( f ) ? ;", why="any other write!: text that is not a frame of the trace"),
         Rule("R2", "for $x in self . 0 [ .. self . size ( ) - 1 ] . iter ( ) . rev ( ) { $$body }", rev_loop("d", invd.replace("$K <= self.0@.len(),", "$K <= self.0@.len() - 1,"), hi="self . size ( ) - 1"),
              why="for over slice[..n-1].iter().rev() -> index counting down from n-1 (R8: n >= 1 here)"),
         Rule("R2", "for $x in self . 0 . iter ( ) . rev ( ) { $$body }", rev_loop("d", invd), why="for over iter().rev() -> index counting down"),
@@ -291,12 +294,12 @@ fn main() {{}}
         Obl("C07.stack.register_local", ["C07", "C01"], fn="Stack::register_variable_local", desc="register_variable_local: binds the name in the innermost frame to a fresh cell holding the value; nothing else changes"),
         Obl("C07.stack.store", ["C07", "C01", "C10"], fn="Stack::register_variable_flags", desc="register_variable_flags (store): an existing variable of the current function (block frames up to and including the function frame) is overwritten in its own shared cell -- frames untouched, no new cell; read-only / new-flag stores fail; otherwise a fresh local in the innermost frame"),
         Obl("C07.stack.find_name", ["C07", "C01"], fn="Stack::find_name", desc="find_name (load): the innermost frame of the whole call stack that has the name (and is not frame-exclusive); the returned handle is of the same cell"),
-        Obl("C17.trace.display", ["C17"], fn="Display for Stack", desc="Display for Stack: `>>` innermost frame, then each remaining active frame exactly once, innermost first"),
+        Obl("C17.trace.display", ["C17", "C19"], fn="Display for Stack", desc="Display for Stack: `>>` innermost frame, then each remaining active frame exactly once, innermost first"),
     ]
     return gen, obls, log
 
 
-UNITS = [VUnit("c07_stack", ["C07", "C01", "C17", "C10", "C08", "C09"], "call stack: store into the shared cell, lookup order, trace listing", build)]
+UNITS = [VUnit("c07_stack", ["C07", "C01", "C17", "C10", "C08", "C09", "C19"], "call stack: store into the shared cell, lookup order, trace listing", build)]
 UNITS[0].assumes = ["Gc<GcCell<..>> as an explicit heap of cells (R10): a handle denotes a cell, clones alias it, PrimitiveFlagsPair::new allocates an unused cell; flags are fixed per cell",
                     "HashMap<String, _> as a finite map; label classification (SpecialScope::is_label_special_scope) abstract",
                     "Display: write! of the three fixed formats is modelled as appending one piece; the texts `\\t>> ` / `\\r\\n\\t ^ ` themselves are not compared"]
